@@ -67,6 +67,20 @@ STRENGTHENED = [
     ("seeded/C11-f", "an override executor is cached as an annotation on the executed stream's top node, which descendants share (dump and item type unchanged)", "C11 snapshots include where the executor / dataset references sit on the nodes of every stream and what they refer to (C12 catches the change unchanged)"),
     ("seeded/C14-f", "dictionary literals keyed by non-negative integers are no longer resolved", "typed generator: dictionaries keyed by integers, written in an order that is not the positional one ({1: a, 0: b}[0])"),
     ("seeded/C17-f", "an EMPTY caller-supplied function_names list is treated as 'not given' (the default operator list is used)", "C17: in a fifth of the cases the function is called with its second parameter - any subset of the operator names plus two look-alikes, also the empty list; the reference transform, the residual scan and the second application use the same list"),
+    ("seeded/C01-g", "keyword arguments of a method called directly on First() are dropped by the simplifier", "typed generator (untyped flavour): member templates with keyword arguments (`.scaled(off=1)`, `.scaled(2.0, off=1)`), so First(seq).m(k=v) is generated in C02 / C14 / C18; C01: a keyword-argument method directly on First() of a member sequence as Select body"),
+    ("seeded/C03-g", "bracket counting ignores the token type: python 3.12 f-string pieces that are exactly one bracket character are counted", "C03: strings and f-strings with unbalanced brackets INSIDE the lambda body (f'[{x}, {x})', f'({x}', '((') are a documented-supported layout, optionally with a second call on the line"),
+    ("seeded/C04-g", "enum test moved from the owner of the attribute to its value: a class constant holding an enum member is left as a free name", "C04 values: enum members HELD by a captured variable / class constant / module attribute (plain Enum and IntEnum: not transportable); this exposed the genuine defect D41"),
+    ("seeded/C05-g", "defaults of an inlined helper taken from the wrong end of the defaults list", "C05: any trailing run of number parameters may be defaulted (distinct values), calls omit some / all / none; plus positional-only parameters, keyword-only lambda helpers and starred-tuple calls (the agent's side observations, which exposed the genuine defects D39 and D40)"),
+    ("seeded/C07-g", "return type of a registered function recorded on the pre-normalisation call only", "C07: registered functions mk -> Trk and mks -> Iterable[Trk] whose results are receivers / sources of further typed call sites"),
+    ("seeded/C08-g", "a non-boolean Where filter inside a nested lambda is accepted (ValueError of lambda following swallowed)", "C08: the non-boolean filter is also planted one level down (`e.jets().Where(lambda j: <non-bool>).Count()` as Select body): must raise ValueError"),
+    ("seeded/C09-g", "keyword arguments of plain function calls are no longer type-followed", "C09: a call site may be handed to a registered (fn3, normalised) or unregistered (sqrt, left as written) function, positionally or by keyword"),
+    ("seeded/C11-g", "lambda parameter types written into the shared mutable default of the operator (no earlier stream changes, later derivations do)", "C11: at the end of every history each successful derivation is repeated and must give the same query and item type; lambda pool with free names spelled like other lambdas' parameters (C10 catches the change unchanged)"),
+    ("seeded/C12-g", "override executor chosen by truthiness: a falsy callable override is discarded", "C12: every other override is a callable recorder object that is falsy while its log is empty"),
+    ("seeded/C14-g", "dict fields named like attributes of python's dict are not projected by attribute", "typed generator: dictionary fields named values / items / keys / get / copy / pop / update (C14, C02, C18); the evaluator reads them as fields"),
+    ("seeded/C16-g", "lookup inspects only ast.Call nodes: metadata on a non-Call root is never found", "C16: a bare ObjectStream over a Name node as third root"),
+    ("seeded/C17-g", "the receiver of a method-form operator is only visited when it is itself a call", "C17: sequences reached through an index, a conditional or an attribute of a holder object (`x.Select(f)[0].Count()`, `box(s).seq.Sum()`), also in three exhaustive positions"),
+    ("seeded/C18-g", "absent attribute on a dict literal that arrives by substitution returns the unvisited (dangling) parameter", "typed generator: every odd projection may reach its literal through a called lambda or First(Select(..)); C18's classifier of permitted index errors follows those bindings"),
+    ("seeded/C20-g", "hash rendered from vars(node) in insertion order: nodes built with fields in another order hash differently", "C20: equal-structure rendering with every node re-created and its fields assigned in reverse order"),
     ("seeded/C08-c", "generic subclass with more type parameters than its base uses", "C08 skeleton: Tag(Box[K], Generic[K,V]), Tag2(Box[V], ...), Swap(Pair[U,T], ...), HalfPair(Pair[T,int]), It2(Iterable[V], ...), TagInts(Tag[int,V]); class names taken from typing. This extension also exposed the genuine defects D29 and D30"),
 ]
 
